@@ -80,6 +80,20 @@ def classify(key, f):
     return ("skipped", "unique", "repeated")[n]
 
 
+def classify_fold(key, f):
+    """classify() plus 'phantom': exactly one instant renders as f, yet the zone's utcoffset() depends
+    on fold there (PEP 495 would call the wall time ambiguous).  A data artefact - in the whole
+    database only America/Nuuk (= America/Godthab) 2023-10-28 23:00-24:00, where the compiled rules
+    contain a zero-length DST period - but a value carrying fold=0 is resolved to an offset that does
+    not render back to its wall time."""
+    c = classify(key, f)
+    if c == "unique" and not isinstance(key, int):
+        o = fold_offsets(key, f)
+        if o[0] != o[1]:
+            return "phantom"
+    return c
+
+
 def year_start_us(y):
     return to_us(_dt.datetime(y, 1, 1, tzinfo=_dt.timezone.utc))
 
